@@ -24,7 +24,7 @@ type C13Case struct {
 	Ops    []C13Op `json:"ops"`
 }
 
-var c13ValClasses = []string{"stack", "alias", "aliasS", "ptralias", "ptraliasNS", "ptrstack", "emptystack", "cond", "condstack", "condalias", "prim", "prim", "nil", "slice"}
+var c13ValClasses = []string{"stack", "alias", "aliasS", "ptralias", "ptraliasNS", "ptrstack", "emptystack", "cond", "condstack", "condalias", "prim", "prim", "nil", "slice", "weirdptr"}
 
 func c13StackLike(class string) bool {
 	switch class {
@@ -63,6 +63,8 @@ func c13Value(class string, tag int) any {
 		return nil
 	case "slice":
 		return []string{"s" + itoa(tag)}
+	case "weirdptr":
+		return weirdPointer(tag) // typed nil pointers of depth 1..3 and live pointers to nil pointers: not Stacks
 	}
 	return tagValue(tag)
 }
